@@ -305,6 +305,15 @@ def check(case: t.Any, ctx: Ctx) -> None:
     if r is not None:
         ctx.fail('compositional', r[0], f"T = {nd.render()[:300]}; v = {short(v, 200)}; {r[1]}")
         return
+    # "each child equals the tree ...": equality of trees is the trees' own ==.  The tree of the same failure taken again (the very
+    # same offending objects in its leaves) is equal to the first - also when a leaf holds a NaN or an array, whose == is not a bool
+    from ..oracles import outcome
+    ctx.evaluated()
+    (ke, eq) = outcome(lambda: tr == own_tree(nd, v))
+    if ke != 'ok' or eq is not True:
+        ctx.fail('compositional', 'tree-equality', f"T = {nd.render()[:300]}; v = {short(v, 200)}; the tree of this failure compared (==) with the tree of the same failure "
+                 f"taken again: {eq!r:.150}")
+        return
     # the tree is a function of (T, v): diagnosing other values with the same type object afterwards neither changes the tree
     # already handed out nor the tree the same value gets when it is diagnosed again
     if len(case) > 3 and case[3]:
